@@ -1,4 +1,7 @@
-use crate::nodes::{Block, Expression, FieldExpression, FunctionCall, Prefix};
+use crate::nodes::{
+    Arguments, Block, Expression, FieldExpression, FunctionCall, Prefix, Token,
+    TupleArgumentsTokens,
+};
 use crate::process::{DefaultVisitor, NodeProcessor, NodeVisitor};
 use crate::rules::{
     Context, FlawlessRule, RuleConfiguration, RuleConfigurationError, RuleMetadata, RuleProperties,
@@ -49,13 +52,38 @@ impl NodeProcessor for Processor {
         };
 
         if let Some(new_prefix) = replace_with {
-            let method_name = call
+            let mut method_name = call
                 .take_method()
                 .expect("method name is expected to exist");
+
+            // a string or table argument gets parentheses: the comments and line breaks
+            // written after the method name go after the opening parenthese, because
+            // a line break in front of it is ambiguous syntax
+            let moved_trivia: Vec<_> = match call.get_arguments() {
+                Arguments::Tuple(_) => Vec::new(),
+                Arguments::String(_) | Arguments::Table(_) => method_name
+                    .mutate_token()
+                    .map(|token| token.drain_trailing_trivia().collect())
+                    .unwrap_or_default(),
+            };
 
             *call.mutate_prefix() = FieldExpression::new(new_prefix.clone(), method_name).into();
             call.mutate_arguments()
                 .insert(0, Expression::from(new_prefix));
+
+            if !moved_trivia.is_empty() {
+                if let Arguments::Tuple(tuple) = call.mutate_arguments() {
+                    let mut opening_parenthese = Token::from_content("(");
+                    for trivia in moved_trivia {
+                        opening_parenthese.push_trailing_trivia(trivia);
+                    }
+                    tuple.set_tokens(TupleArgumentsTokens {
+                        opening_parenthese,
+                        closing_parenthese: Token::from_content(")"),
+                        commas: vec![Token::from_content(",")],
+                    });
+                }
+            }
         }
     }
 }
